@@ -272,6 +272,9 @@ pub(crate) fn read_tag(
     let mut num_strings: usize = 1;
     loop {
         // read string
+        if output.len() < *outposp + 2 {
+            return Err(InnerError::BufferTooSmall(*outposp + 2).into());
+        }
         let (inlen, outlen) = json_unescape(&input[*inposp..], &mut output[*outposp + 2..])?;
         // write the length before it
         put(output, *outposp, (outlen as u16).to_ne_bytes().as_slice())?;
@@ -316,6 +319,9 @@ pub(crate) fn read_content(
     verify_char(input, b'"', inposp)?;
 
     // Place content 4 bytes beyond tags, to reserve space for content length
+    if output.len() < after_tags + 4 {
+        return Err(InnerError::BufferTooSmall(after_tags + 4).into());
+    }
     let (inlen, outlen) = json_unescape(&input[*inposp..], &mut output[after_tags + 4..])?;
     *inposp += inlen + 1; // +1 to pass the end quote
 
